@@ -24,8 +24,11 @@ Definition finite64hi (h : N) : N := if N.land (N.shiftr h 20) 2047 =? 2047 then
 Definition bword (t : sty) (seed i j : N) : N :=
   let h := bmix seed i j in
   match t with
-  | Char | UChar => N.land h 255
-  | Short | UShort => N.land h 65535
+  (* char / short items (extra list properties only): non-negative, so that text and word denote the same number *)
+  | Char => N.land h 127
+  | UChar => N.land h 255
+  | Short => N.land h 32767
+  | UShort => N.land h 65535
   | Int | UInt => h
   | Float => finite32 h
   | Double => finite64hi h * 4294967296 + bmix (seed + 1) i j
